@@ -5,7 +5,12 @@ use crate::{Error, Result};
 use lazy_static::lazy_static;
 use std::collections::HashMap;
 use std::fmt;
+#[cfg(not(flea1lt_sentinel_rust_verif))]
 use std::sync::{Arc, Mutex};
+#[cfg(flea1lt_sentinel_rust_verif)]
+use std::sync::{Arc};
+#[cfg(flea1lt_sentinel_rust_verif)]
+use crate::verif::sync::{Mutex};
 
 type OtherBlockType = u8;
 
